@@ -621,7 +621,6 @@ func (c *Ctx) requireAny(rule, construct string, pos token.Pos, gs []Guard, desc
 	return false
 }
 
-
 var inlineDepth int
 
 // inlineHelpers: when set, predOfVal reads single-expression boolean helpers
@@ -696,7 +695,6 @@ func inlineBoolHelper(call *ssa.Call, pol bool) (Pred, bool) {
 	}
 	return p, true
 }
-
 
 // impliedLin: some guard establishes target ≥ 0 (same atoms and coefficients, constant no larger).
 func impliedLin(gs []Guard, target Lin) (string, bool) {
